@@ -117,9 +117,18 @@ def block_partitioner(ctx):
                 width_t = cand
         if okn:
           okw = cmpr.same(width, width_t)
-          # stride: ind advances by the same n
-          ind = sc.vars.get('ind')
-          oks = ind is not None and any(x.op == 'bin' and x.args[0] == '+' and x.args[1].op == 'phi' and x.args[2] is width_t for x in walk(ind))
+          # stride: the group start begins at 0 and advances by the same amount (a counter stepped in a while loop, or a range with that step)
+          oks = False
+          if lo.op == 'rangevar':
+            ra = [a_ for a_ in lo.args if a_.op != 'depth']
+            oks = len(ra) == 3 and is_const(ra[0], 0) and cmpr.same(ra[2], width_t) and \
+                ra[1].op == 'call' and ra[1].args[0].op == 'builtin' and ra[1].args[0].args[0] == 'len'
+          elif lo.op == 'phi' and is_const(lo.args[2], 0):
+            for v_ in sc.vars.values():
+              for x in walk(v_):
+                if x.op == 'loop' and x.args[0] == lo.args[0] and is_const(x.args[2], 0) and x.args[3].op == 'bin' and x.args[3].args[0] == '+' and \
+                    ((x.args[3].args[1] is lo and cmpr.same(x.args[3].args[2], width_t)) or (x.args[3].args[2] is lo and cmpr.same(x.args[3].args[1], width_t))):
+                  oks = True
           okw = okw and oks
     ctx.ob('C06.S1', fm.short, 'group size len(indices)+1 = slice width = stride', okw,
            f'each concatenation must take len(indices)+1 consecutive partitions and advance by the same amount; got `{why}`',
